@@ -217,12 +217,23 @@ def hyp_generate(ctx, strategy, run_case, max_examples, tag='main',
 
     n_done = [0]
     inner_run_case = run_case
+    quota = max_examples
+    n_sh = max(1, ctx.n_shards)
+    # Every Hypothesis run starts with the same simplest examples whatever its
+    # seed, so without care all shards would execute identical first cases.
+    # A generated case is executed only by the shard that owns its hash; each
+    # shard therefore generates n_shards times its quota (generation is cheap
+    # compared with execution) and stops executing once the quota is reached.
+    max_examples = quota * n_sh
+
+    def owned(case):
+        return int(case_hash(case), 16) % n_sh == ctx.shard % n_sh
 
     def run_case(case):
         return with_timeout(inner_run_case, case, ctx, case_timeout)
 
     def body(case):
-        if ctx.out_of_time():
+        if ctx.out_of_time() or n_done[0] >= quota or not owned(case):
             return
         n_done[0] += 1
         res = run_case(case)
@@ -233,9 +244,9 @@ def hyp_generate(ctx, strategy, run_case, max_examples, tag='main',
                 new_buckets.append(b)
 
     make([Phase.generate], body, max_examples)()
-    if n_done[0] < max_examples and ctx.out_of_time():
+    if n_done[0] < quota and ctx.out_of_time():
         ctx.notes.append('budget exhausted after %d of %d cases (%s)' % (
-            n_done[0], max_examples, tag))
+            n_done[0], quota, tag))
 
     # Shrink buckets that are not known findings.
     if shrink_budget_s is None:
@@ -246,7 +257,7 @@ def hyp_generate(ctx, strategy, run_case, max_examples, tag='main',
         best = [None]
 
         def sbody(case, b=b, t_end=t_end, best=best):
-            if time.time() > t_end:
+            if time.time() > t_end or not owned(case):
                 return
             res = run_case(case)
             for v in res.violations:
@@ -255,7 +266,7 @@ def hyp_generate(ctx, strategy, run_case, max_examples, tag='main',
                     raise AssertionError(b)
 
         try:
-            make([Phase.generate, Phase.shrink], sbody, n_done[0] + 1)()
+            make([Phase.generate, Phase.shrink], sbody, max_examples)()
         except BaseException:  # noqa: hypothesis reports / flaky / ours
             pass
         if best[0] is not None:
